@@ -30,8 +30,8 @@ func init() {
 var c16AutoGroups = [][]string{
 	{"DateTime64(0)", "DateTime64(3)", "DateTime64(6)", "DateTime64(9)", "DateTime64(3, 'UTC')", "DateTime64(3, 'Asia/Tokyo')", "DateTime64(6, 'Europe/Berlin')", "DateTime64(9, 'America/New_York')"},
 	{"DateTime", "DateTime('UTC')", "DateTime('Asia/Tokyo')", "DateTime('Europe/Berlin')"},
-	{"Enum8('a' = 1, 'b' = 2)", "Enum8('x' = 1, 'y' = 2)", "Enum8('b' = 1, 'a' = 2, 'c' = 3)", "Enum8('neg' = -128, 'zero' = 0, 'max' = 127)"},
-	{"Enum16('lo' = -32768, 'a' = 1, 'big' = 300)", "Enum16('p' = 1, 'q' = 300)", "Enum16('a' = 300, 'big' = 1)"},
+	{"Enum8('a' = 1, 'b' = 2)", "Enum8('x' = 1, 'y' = 2)", "Enum8('b' = 1, 'a' = 2, 'c' = 3)", "Enum8('neg' = -128, 'zero' = 0, 'max' = 127)", "Int8"},
+	{"Enum16('lo' = -32768, 'a' = 1, 'big' = 300)", "Enum16('p' = 1, 'q' = 300)", "Enum16('a' = 300, 'big' = 1)", "Int16"},
 	{"FixedString(1)", "FixedString(4)", "FixedString(16)", "FixedString(5)"},
 	{"Decimal(9, 2)", "Decimal32(4)", "Decimal(18, 4)", "Decimal64(2)", "Decimal(38, 10)", "Decimal(76, 20)"},
 	{"Interval Second", "Interval Day", "Interval Year"},
